@@ -13,10 +13,6 @@ instrumented by `execT`; they are handled by correspondence and the instrumented
 namespace LokiModel.C26
 open LokiModel.Fir
 
-/-- known class of `defines`: the DO variable of a loop at or inside the node (deliberately discarded by `visit_Loop`) -/
-def KnownDefS (x : String) (s : Stmt) : Bool := (loopVarsS s).contains x
-def KnownDefL (x : String) (ss : List Stmt) : Bool := (loopVarsL ss).contains x
-
 /-- **defines_sound (partial)**: every variable written while a statement executes is in the node's `defines_symbols`,
 except DO variables of loops at or inside the node (class `loop-variable-not-defined`; see `Findings.C26`).
 What is missing for the full property: exactly that class. -/
